@@ -147,7 +147,9 @@ def _enum(acc, shard, nshards, seed, tier, labels="ab", length=4):
 
 
 LABEL_POOL = ["20minutes", "2019", "3D", "example", "EXAMPLE", "Example", "com", "COM", "co", "uk", "é", "xn--9ca", "XN--9CA", "www", "a", "b",
-              "münchen", "xn--mnchen-3ya", "Xn--Mnchen-3ya", "fr", "blog", "m", "x-y", "中文", "xn--fiq228c", "straße", "strasse", "νέος", "νέοσ"]
+              "münchen", "xn--mnchen-3ya", "Xn--Mnchen-3ya", "fr", "blog", "m", "x-y", "中文", "xn--fiq228c", "straße", "strasse", "νέος", "νέοσ",
+              # labels that merely begin or end like a special host
+              "localhost-dev", "localhost2", "mylocalhost", "LocalHost-X", "ip-10-0-0-1"]
 
 
 def _strategy(tier):
